@@ -2,7 +2,7 @@ pub mod alloc;
 pub mod run;
 pub mod tape;
 
-pub use run::{fail, CaseResult, Ctx, Fail, Known, Rec, ReplayReq, Source, Tier};
+pub use run::{fail, fuzz_case, FuzzVerdict, CaseResult, Ctx, Fail, Known, Rec, ReplayReq, Source, Tier};
 pub use tape::{expand, Tape};
 
 use std::path::Path;
